@@ -39,7 +39,9 @@ AllowedOf(tr) == IF tr.conn = "" THEN {{pr[1], pr[2]} : pr \in Pairs(tr.n)} ELSE
 MappedAllowed(tr) == LET C == Coupling(tr.m, tr.conn)
                      IN  {{tr.list[pr[1] + 1], tr.list[pr[2] + 1]} : pr \in {q \in Pairs(tr.m) : {q[1], q[2]} \in C}}
 EntryOf(tr, id) == TableOf(tr.n, tr.conn)[id + 1]        \* <<graph, cost, depth>> of class id
-TargetOf(tr) == IF tr.kind = "compress" THEN ApplySeqTab(tr.program, ZTab(tr.n)) ELSE tr.target
+TargetOf(tr) == CASE tr.kind = "compress" -> ApplySeqTab(tr.program, ZTab(tr.n))
+                  [] tr.kind = "mub" -> [i \in 1..Len(tr.basis) |-> FromChars(tr.basis[i])]   \* MUB bases are Pauli strings
+                  [] OTHER -> tr.target
 TableVocab == {"h", "s", "sdg", "cx", "cz", "swap"}
 
 (* layer logged by the pipeline: one 2x2 block <<axx,axz,azx,azz>> per qubit *)
@@ -56,11 +58,11 @@ LayerSound(tr, g, tg) == /\ Len(tr.layer) = tr.n
 (* request event                                                           *)
 (***************************************************************************)
 InputClauses(tr) ==
-   (IF tr.kind \in {"prep", "readout", "mub"} /\ ~ValidStabilizer(tr.n, tr.target) THEN {"bad-input"} ELSE {})
+   (IF tr.kind \in {"prep", "readout"} /\ ~ValidStabilizer(tr.n, tr.target) THEN {"bad-input"} ELSE {})
    \cup (IF tr.kind \in {"prep", "readout", "compress", "mub"} /\ ~IsSupported(tr.n, tr.conn) THEN {"bad-config"} ELSE {})
    \cup (IF tr.kind = "compress" /\ ~(\A i \in 1..Len(tr.program) : WellFormed(tr.program[i], tr.n)) THEN {"bad-input"} ELSE {})
 Request == /\ l = 0 /\ tid <= NT
-           /\ (IF T.kind \in {"readout", "mub"} /\ Len(T.target) = T.n THEN Load(T.target) ELSE Reset(T.n))
+           /\ (IF T.kind \in {"readout", "mub"} /\ Len(TargetOf(T)) = T.n THEN Load(TargetOf(T)) ELSE Reset(T.n))
            /\ l' = 1 /\ tid' = tid
            /\ fails' = InputClauses(T)
 
@@ -116,7 +118,8 @@ PostApi(tr) ==      \* prep / readout / compress
    \cup (IF tr.unchanged = 0 THEN {"args-mutated"} ELSE {})
 
 PostMub(tr) ==
-   (IF ~AllDiagonal THEN {"diag"} ELSE {})
+   (IF ~ValidStabilizer(tr.n, TargetOf(tr)) THEN {"basis"} ELSE {})
+   \cup (IF ~(Len(tab) = tr.n /\ AllDiagonal) THEN {"diag"} ELSE {})
    \cup (IF tr.cost >= 0 /\ cost # tr.cost THEN {"cost"} ELSE {})
 
 PostMeas(tr) ==
